@@ -4,7 +4,7 @@ import sys
 import time
 import traceback
 
-from . import common, facts, interp, wire, rules_wire, rules_header, rules_hash, golden, hashrec, rules_align, gen_units, guards, rules_eps, rules_err, rules_schema, rules_loader
+from . import common, facts, interp, wire, rules_wire, rules_header, rules_hash, golden, hashrec, rules_align, gen_units, guards, rules_eps, rules_err, rules_schema, rules_loader, rules_zc
 from .common import Report, Facts, ExportError
 
 ASSUME_COMMON = [
@@ -770,7 +770,41 @@ def check_C14(ctx):
             "partially built values are shown not to be dropped uninitialised. Equality of values under each chunking pattern is not decided.")
 
 
-CHECKS = {"C08": check_C08, "C09": check_C09, "C13": check_C13, "C14": check_C14, "C18": check_C18, "C12": check_C12, "C03": check_C03, "C11": check_C11, "C16": check_C16, "C07": check_C07, "C04": check_C04, "C06": check_C06, "C10": check_C10, "C01": check_C01, "C02": check_C02, "C15": check_C15, "C05": check_C05}
+def check_C17(ctx):
+    import json
+    rep = ctx.rep
+    rep.rule("ZC-GUARD", "every writer path (built-in and corpus) that emits raw memory of V has established <V as SerializeInner>::IS_ZERO_COPY before the first byte of the value is written; a refusing (panic) path with nothing written exists")
+    rep.rule("ZC-CONST", "derived IS_ZERO_COPY = repr(C) flag && IS_ZERO_COPY of every field type")
+    rep.rule("S-ZC", "built-in impls: literal IS_ZERO_COPY = true only with CopyType::Copy = Zero; ZeroCopy requires Copy + 'static + MaxSizeOf + CopyType<Copy = Zero>")
+    rep.rule("CONST", "rustc's const-evaluation of IS_ZERO_COPY for corpus types, including a hand-written fake zero-copy type and a derived zero-copy struct holding it (false), vectors and arrays of it (false)")
+    rep.rule("WITNESS", "compile-fail probes for wrongly declared zero-copy types (layer 1); when a probe compiles, layer 2 = CONST false + ZC-GUARD")
+    u, w, ts, exp = ctx.triples("default", CORPUS)
+    n = rules_zc.rule_zc_guard(u, ts, rep)
+    rep.floor("raw emission sites", n, 28)
+    rules_zc.rule_szc(u, rep)
+    k = rules_zc.rule_derived_const(u, rep)
+    rep.floor("derived IS_ZERO_COPY constants", k, 30)
+    rules_zc.rule_zerocopy_supers(u, rep)
+    expj = json.load(open(os.path.join(common.VERIF, "witness", "wcorpus", "expect.json")))
+    m = 0
+    for name, want in expj["consts"].items():
+        if not name.startswith("ZC_"):
+            continue
+        b = u.bodies.get("wcorpus::" + name)
+        got = b.value.get("v") if (b is not None and b.value) else None
+        ok = got == want
+        rep.oblige(ok)
+        m += 1
+        if not ok:
+            rep.add("CONST", name, "rustc evaluates %s to %s, expected %s" % (name, got, want))
+    rep.floor("const-evaluated IS_ZERO_COPY values", m, 10)
+    from . import witness
+    witness.run_probes(ctx, rep, "C17")
+    return ("Static guard analysis: raw emission is dominated by the IS_ZERO_COPY check on every writer path; the constant is the conjunction over all fields (derive output of the corpus) "
+            "and is const-evaluated by rustc for wrongly declared types; compile-fail witnesses for the derive-time refusals.")
+
+
+CHECKS = {"C17": check_C17, "C08": check_C08, "C09": check_C09, "C13": check_C13, "C14": check_C14, "C18": check_C18, "C12": check_C12, "C03": check_C03, "C11": check_C11, "C16": check_C16, "C07": check_C07, "C04": check_C04, "C06": check_C06, "C10": check_C10, "C01": check_C01, "C02": check_C02, "C15": check_C15, "C05": check_C05}
 
 
 def main(argv):
